@@ -58,5 +58,13 @@ def run(ctx, chk):
             r = [p for p in paths if p.end == "return"]
             ok = len(r) == 1 and not res[id(r[0])] and an.is_call(r[0].ret, re.compile(r"BitField>::load_le::<u8>$"), (("bits", P(1)),))
             chk.ob("S-byte", "u8::from(&SeqSlice)", ok, "u8::from(slice) = %s, expected load_le::<u8>(content)" % (show(r[0].ret) if r else "?"), b["span"])
+    import core
+    for cfg in ctx.configs(need_all_features=True):
+        chk.cfg = cfg.name
+        # "translating by windows or by chunks of three gives, position by position, the translation of the triplet":
+        # the window/chunk iterator rows (C11) and the collection of the results into a Seq<Amino> (C06: one push per item) are imported
+        core.import_rows(chk, cfg, "C11", "props.C11", ("G04", "G05c", "I-override"))
+        core.import_rows(chk, cfg, "C06", "props.C06", ("S-extend", "R08"))
+        core.import_rows(chk, cfg, "C03", "props.C03", ("R-index", "S-len"))
     chk.floor("codons checked", n, 64 * max(1, len(chk.configs)))
     chk.coverage_exhaustive = True
